@@ -39,7 +39,7 @@ def slot_cases(rng, n):
     wrong kind, and — for condition blocks — both spellings of one operator with blocks that are not objects"""
     fns = [{"Ref": "P"}, {"Fn::If": ["C", "Allow", "Deny"]}, {"Fn::Sub": "${P}-x"}, {"Fn::Join": ["", ["a", {"Ref": "P"}]]}, {"Fn::FindInMap": ["M", "a", "b"]},
            {"Fn::GetAtt": ["R", "Arn"]}, {"Fn::Select": [0, ["a"]]}, {"Fn::ImportValue": "x"}, {"Condition": "C"}]
-    wrong = [None, True, 5, 1.5, [], {}, [[]], {"a": "b"}, ["a", 5], "", "text", 2**70, " ", "\n", "\t ", "\u00a0", "[", "{", "-", "nul"]
+    wrong = [None, True, 5, 1.5, [], {}, [[]], {"a": "b"}, ["a", 5], "", "text", 2**70, " ", "\n", "\t ", "\u00a0", "[", "{", "-", "nul", "Custom::" + "Abcdefghij" * 5 + ".x", "[1" + "0" * 400 + ", \"x\"]", "[" + "9" * 350 + ", 1.5]", 10**400]
     out = []
     for _ in range(n):
         v = copy.deepcopy(rng.choice(fns + wrong if rng.random() < 0.8 else wrong))
@@ -86,7 +86,10 @@ def slot_cases(rng, n):
 def damage(rng, t):
     """one hostile change somewhere in an otherwise valid template"""
     t = copy.deepcopy(t)
-    hostile = [None, True, 5, 1.5, "text", [], ["a"], {}, {"a": "b"}, [[]], {"Ref": "X"}, [{"a": 1}], "AWS::S3::Bucket", 2**70, -1, " ", "\n", "\t \n", [" "], {"k": "\n"}]
+    hostile = [None, True, 5, 1.5, "text", [], ["a"], {}, {"a": "b"}, [[]], {"Ref": "X"}, [{"a": 1}], "AWS::S3::Bucket", 2**70, -1, " ", "\n", "\t \n", [" "], {"k": "\n"},
+               # long names with one odd character at the end (anything that scans them must do so in linear time), huge numbers
+               "Custom::" + "CertificateValidationRequestor" * 2 + ".v2", "AWS::" + "A1" * 40 + "::" + "b" * 40 + "!", "a" * 60 + "\u00e9", 10**400, -(10**400),
+               "[1" + "0" * 400 + ", \"x\"]", "[" + "9" * 350 + ", 1.5]", "[\"2020-01-01\", 1" + "0" * 400 + "]", "1" + "0" * 400, "1e400", "-1e400"]
     k = rng.randrange(12)
     res = t.get("Resources") or {}
     names = list(res)
